@@ -10,13 +10,9 @@ ASSUMPTIONS = ["A-VM", "A-U64",
 IMPORTS = "Base.Prelude Gen.Params Model.PriceDiscovery Run.PriceDiscoveryRun"
 MAXP = sp.MAXP
 
-# The property text says a launched-token deposit that leaves the price below the minimum is rejected.
-# The contract (deposit: `current_price == 0 || ...`) accepts one whose resulting price ROUNDS TO ZERO even
-# when accepted liquidity exists (Coq: C17_floor_launched_deposit_refuted; corpus case below).  With
-# STRICT_ZERO_PRICE = False the monitor treats a zero price as "no price" (the bootstrap reading) and the
-# occurrences are only counted (coverage.counters["floor:zero-price-escape"]); set it to True together
-# with a line  `finding: property=C17 key=floor:deposit-launched-zero-price ...`  in known_findings.txt.
-STRICT_ZERO_PRICE = False
+# Launched-token deposits: with accepted tokens present the resulting price must be >= the minimum (a price
+# that ROUNDS TO ZERO included: that was the escape repaired by /repo 398b115); only while the accepted
+# balance is 0 (bootstrap, price 0 by definition) may a launched deposit leave price < minimum.
 
 RULE = ("histories of ~40 operations on the real price-discovery + simple-lock contracts from a random accepted (or, "
         "in ~8%, rejected) deployment: decimals 0..18, durations 0..4 per phase (0 and 1 over-represented), penalty "
@@ -42,7 +38,9 @@ CORPUS = [
          cfg=dict(cur=1, dec=0, minp=5, start=2, dn=5, dl=5, df=5, pmin=0, pmax=0, pfix=0, unlock_epoch=3,
                   scale_l=10, scale_a=100, nops=5),
          ops=[["Tick", 1, 0], ["Deposit", 1, 1, 10], ["Deposit", 1, 2, 100], ["Deposit", 2, 1, 40],
-              ["Deposit", 2, 1, 1000]]),
+              ["Deposit", 2, 1, 1000]],
+         # bootstrap deposit accepted at price 0; 40 (price 2 < 5) and 1000 (price rounds to 0 < 5) rejected
+         expect_ok=[True, True, True, False, False]),
 ]
 
 
@@ -65,11 +63,6 @@ def doc_phase(cfg, b):
 def side(o, n):
     """(tracked, real, supply, holdings) of the side of token/nonce n"""
     return (o["lb"], o["rl"], o["s1"], o["h1"]) if n == 1 else (o["ab"], o["ra"], o["s2"], o["h2"])
-
-
-def zero_escape(cfg, op, o):
-    return (op[0] == "Deposit" and o["ok"] and op[2] == 1 and cfg["minp"] > 0 and o["price"] == 0
-            and o["pre"]["ab"] > 0)
 
 
 def monitor(cfg, op, o):
@@ -127,12 +120,15 @@ def monitor(cfg, op, o):
                 or side(pre, 3 - tok)[:3] != side(o, 3 - tok)[:3]:
             out.append(("deposit:balances", f"{op}: tracked {tr1 - tr0:+}, real {re1 - re0:+}, supply {su1 - su0:+}, "
                                             f"caller redeem tokens {h1[c] - h0[c]:+}, caller wallet {o['dw'][c][tok]:+}"))
-        if tok == 1 and o["price"] < cfg["minp"]:
-            if o["price"] != 0:
-                out.append(("floor:deposit-launched", f"{op} accepted, price now {o['price']} < minimum {cfg['minp']}"))
-            elif STRICT_ZERO_PRICE and pre["ab"] > 0:
+        if tok == 1 and o["ab"] > 0 and o["price"] < cfg["minp"]:
+            if o["price"] == 0:
                 out.append(("floor:deposit-launched-zero-price",
-                            f"{op} accepted with accepted liquidity {pre['ab']}: price now rounds to 0 < minimum {cfg['minp']}"))
+                            f"{op} accepted with accepted liquidity {o['ab']}: price now rounds to 0 < minimum {cfg['minp']}"))
+            else:
+                out.append(("floor:deposit-launched", f"{op} accepted with accepted liquidity {o['ab']}: price now "
+                                                      f"{o['price']} < minimum {cfg['minp']}"))
+        if tok == 1 and o["ab"] == 0 and o["price"] != 0:
+            out.append(("floor:bootstrap-price", f"{op}: no accepted tokens deposited but price is {o['price']}"))
     elif k == "Withdraw":
         _, c, n, amt = op
         if pre["phase"] not in (1, 2, 3) or o["phase"] not in (1, 2, 3):
@@ -198,7 +194,8 @@ def nontrivial(cfg, op, o):
         if "not allowed in this phase" in m:
             return ("gate", k, o["phase"])
         if "below min price" in m:
-            return ("floor-reject", k, op[2], o["phase"], cfg["dec"] // 4, mag(op[3]))
+            zero = k == "Deposit" and pre["lb"] + op[3] > pre["ab"] * 10 ** cfg["dec"]     # price would round to 0
+            return ("floor-reject", k, op[2], o["phase"], zero, cfg["dec"] // 4, mag(op[3]))
         return None
     if k == "Withdraw":
         _, c, n, amt = op
@@ -210,8 +207,8 @@ def nontrivial(cfg, op, o):
         return key
     if k == "Deposit":
         _, c, tok, amt = op
-        if cfg["minp"] > 0 and tok == 1 and pre["ab"] > 0:
-            return ("floor-ok", k, tok, o["phase"], o["price"] == cfg["minp"], o["price"] == 0, cfg["dec"] // 4, mag(amt))
+        if cfg["minp"] > 0 and tok == 1:
+            return ("floor-ok", k, tok, o["phase"], o["price"] == cfg["minp"], o["ab"] == 0, cfg["dec"] // 4, mag(amt))
         return None
     if k == "Redeem":
         _, c, n, amt = op
@@ -256,13 +253,22 @@ def explore(tier, seed, model_ok=True, focus=False):
         ex.count("deploy:ok" if deployed else "deploy:err")
         ex.evaluations += len(trace) + 1
         ops_all = [t[0] for t in trace]
+        if isinstance(sd, tuple) and sd[0] == "corpus":
+            exp = next((c.get("expect_ok") for c in CORPUS if c["name"] == sd[1]), None)
+            got = [o["ok"] for _, o in trace]
+            if exp is not None and got != exp:
+                ex.failures.append(dict(key=f"corpus:{sd[1]}", what=f"regression history {sd[1]}: accepted/rejected "
+                                        f"pattern {got}, expected {exp}", replay=dict(cfg=cfg, ops=ops_all, seed=sd)))
         for i, (op, o) in enumerate(trace):
             ex.count(op[0] + (":ok" if o["ok"] else ":err"))
             ex.count(f"phase{o['phase']}")
             if not o["ok"]:
                 ex.count("err:" + o["msg"][:40])
-            if zero_escape(cfg, op, o):
-                ex.count("floor:zero-price-escape")
+            if op[0] == "Deposit" and op[2] == 1 and cfg["minp"] > 0:
+                if o["ok"] and o["ab"] == 0:
+                    ex.count("floor:bootstrap-deposit-accepted")
+                elif not o["ok"] and "below min price" in o["msg"] and o["pre"]["lb"] + op[3] > o["pre"]["ab"] * 10 ** cfg["dec"]:
+                    ex.count("floor:zero-price-deposit-rejected")
             k = nontrivial(cfg, op, o)
             if k is not None:
                 ex.nontrivial.add(k)
@@ -274,10 +280,6 @@ def explore(tier, seed, model_ok=True, focus=False):
             ex.samples.append(dict(seed=sd, cfg=cfg, deployed=deployed,
                                    ops=[[op, "ok" if o["ok"] else o["msg"], o["outs"], f"phase {o['phase']}"]
                                         for op, o in trace[:14]]))
-    if ex.counters.get("floor:zero-price-escape"):
-        ex.notes.append(f"{ex.counters['floor:zero-price-escape']} launched-token deposits were accepted although the "
-                        "resulting price rounds to 0 < minimum with accepted liquidity present (Coq: "
-                        "C17_floor_launched_deposit_refuted); tolerated because STRICT_ZERO_PRICE is off")
     if model_ok:
         res = coqrun.eval_terms(IMPORTS, terms, tag="C17", per_file=max(1, min(25, len(terms) // 16 + 1)))
         ex.traces_validated = len(res)
@@ -300,4 +302,10 @@ def replay(data):
     for op, o in trace:
         for key, what in monitor(rp["cfg"], op, o):
             fails.append(dict(key=key, what=what))
+    sd = rp.get("seed")
+    if isinstance(sd, (list, tuple)) and len(sd) == 2 and sd[0] == "corpus":
+        exp = next((c.get("expect_ok") for c in CORPUS if c["name"] == sd[1]), None)
+        got = [o["ok"] for _, o in trace]
+        if exp is not None and got != exp:
+            fails.append(dict(key=f"corpus:{sd[1]}", what=f"accepted/rejected pattern {got}, expected {exp}"))
     return fails
